@@ -207,6 +207,11 @@ func (env *c05env) build(n *c05node) zapcore.Core {
 				env.onHook(id)
 			}
 			env.events = append(env.events, c05ev{1, id})
+			if id%2 == 1 {
+				// a failing core: hooks with an odd id report an error from Core.Write (after having run).
+				// The entry, the other cores and the terminal action must be unaffected (C06, C10).
+				return fmt.Errorf("hook %d failed", id)
+			}
 			return nil
 		})
 	case 4:
